@@ -19,8 +19,8 @@ from ..tlaparse import to_json
 from ..world import canonical_dir_bytes
 
 FILES = {"foo": b"foo\n", "data/bar": b"bar\n", "data/sub/baz": b"baz baz\r\n", "data/sub/deep/qux": b"", "other/x": b"x\x00x"}
-DIRS = ["data", "data/sub", "data/sub/deep", "other"]
-LAZY = {"data": ["data/bar", "data/sub/baz", "data/sub/deep/qux"], "other": ["other/x"]}
+DIRS = ["data", "data/sub", "data/sub/deep", "other", "void"]
+LAZY = {"data": ["data/bar", "data/sub/baz", "data/sub/deep/qux"], "other": ["other/x"], "void": []}   # void: the empty directory object
 FILTERS = {
     "all": lambda k: True,
     "foo": lambda k: k == ("foo",),
@@ -249,8 +249,8 @@ def directed_cases():
     """Every operation as the FIRST access to a fresh lazy index, for keys at every depth."""
     cases = []
     n = 500000
-    keys = ["foo", "data", "data/bar", "data/sub", "data/sub/baz", "data/sub/deep", "data/sub/deep/qux", "other", "other/x"]
-    dirs = ["", "data", "data/sub", "data/sub/deep", "other"]
+    keys = ["foo", "data", "data/bar", "data/sub", "data/sub/baz", "data/sub/deep", "data/sub/deep/qux", "other", "other/x", "void"]
+    dirs = ["", "data", "data/sub", "data/sub/deep", "other", "void"]
     singles = [("Get", [k]) for k in keys] + [("Info", [k]) for k in keys] + [("FsInfo", [k]) for k in keys]
     singles += [(op, [d]) for op in ("Ls", "FsLs", "FsFind") for d in dirs]
     singles += [("Iter", [d, sh]) for d in dirs for sh in (False, True)]
@@ -272,7 +272,7 @@ def check(run: core.Run, replay=None):
     core.assert_repo_tree()
     quick = run.tier == "quick"
     validate.run_design(run, "MC_LazyIndex", "LazyIndex_quick.cfg", workers=8,
-                        constants={"keys": 9, "lazy_dirs": ["data (nested 3 deep)", "other"], "filters": list(FILTERS), "MaxSteps": 4})
+                        constants={"keys": 10, "lazy_dirs": ["data (nested 3 deep)", "other", "void (lists nothing)"], "filters": list(FILTERS), "MaxSteps": 4})
     if replay:
         cases = [replay["witness"]["case"]]
     else:
